@@ -27,8 +27,9 @@ from .. import gen
 from . import stoch_common as SC
 
 PROP = "C11"
-LEAN = {"module": "Pygom.Props.C11",
-        "required": ["Pygom.C11.checkJump_reject_unchanged", "Pygom.C11.checkJump_accept_within",
+LEAN = {"module": "Pygom.Props.C11", "extra_modules": ["Pygom.Props.C11Grid"],
+        "required": ["Pygom.C11.gridded_row_mem_path", "Pygom.C11.gridded_rows_within_limits", "Pygom.C11.path_within_limits_all",
+                     "Pygom.C11.path_within_declared_limits", "Pygom.C11.checkJump_reject_unchanged", "Pygom.C11.checkJump_accept_within",
                      "Pygom.C11.path_within_limits", "Pygom.C11.limits_default", "Pygom.C11.stateLims_aligned",
                      "Pygom.C11.legacy_limits_counterexample", "Pygom.C11.tau_proposal_always_checked",
                      "Pygom.C11.tau_leap_success_iff", "Pygom.C11.drift_only_leap_rejected"]}
